@@ -16,6 +16,9 @@ def run(pid, tier):
     M.model_check(chk, tier)
     if tier != "quick":
         M.defect_variants(chk)
+        # the two specification levels agree: model behaviours rendered as abstract events are
+        # accepted by the property-level monitor, the defect variants' bad paths are rejected
+        M.spec_crosscheck(chk)
     # --- B1: transition tour of the replay configurations driven through the real code
     M.replay_tours(chk, col, bindir, tier)
     # --- free-running / stray wake / fault injection / large histories, all judged by TLC (B2)
